@@ -133,6 +133,13 @@ CLAIMED["C20"] = (
     "Results, Concurrency, plain Tasks) is decided by differential execution only: same results and errors as base-mode code and as FlowSemModel for all single-outcome scenarios {ok, error, panic} of generated subset flows. Known "
     "finding F10 (function-local types in modifier mode) is outside the generated corpus and recorded in DESIGN.md only.",
     GEN_NOTE, "DESIGN.md §7 C20")
+CLAIMED["C10"] = (
+    "Coq proof over the operational model of generated programs applied to the embedding of cff.Parallel (one job per function and element; End job depending on all element jobs of its collection) + correspondence: generated Parallel programs compiled by the real cff, executed under scenario tables, compared with the model of their embedding",
+    "Partial, labelled so. For every execution the scheduler can produce: each function/element job runs at most once and, when every job returned nil, exactly once (C10_at_most_once, C10_all_called); when an End hook runs every "
+    "element job of its collection is logged before it with result nil (C10_end_after_elements); if an element call failed, panicked or never ran the End hook never runs (C10_end_starved). Not theorems, tied by the correspondence: "
+    "that element job i calls the function with (i, s[i]) / (k, m[k]) (per-iteration copies in the template) and that the generated jobs are the embedding: every element call logs its arguments, End hooks are ordered against element "
+    "returns by sequence numbers under random sleeps, all signature shapes (index/no-index, ctx/no-ctx, error/no-error), sizes 0..8, nil collections, named slice types, generic enclosing functions, ContinueOnError.",
+    GEN_NOTE + " The embedding used by the harness is compared with ParallelModel.par_flow (extracted) for every program.", "DESIGN.md §7 C10")
 CLAIMED["C11"] = (GEN_TECH,
     "For every flow, scenario, task and valuation: predicate false => the task function is not called, its outputs are the zero values and it cannot fail the flow "
     "(C11_false_*); the function is invoked only if there is no predicate or it returned true (C11_invoked_only_if_true); the predicate is called with exactly the values of "
